@@ -126,6 +126,12 @@ class Gen(object):
                         l['enum'] = rng.pick(['E1', 'E2'])
                     (fs['required'] if j < nreq else fs['optional']).append(l)
             forms.append(fs)
+        # occasionally a "wide" form: many lines waiting for the same input at the same moment
+        if rng.chance(0.05) and forms[0]['inputs']:
+            i0 = forms[0]['inputs'][0]
+            if i0['type'] in ('int', 'float', 'bool'):
+                for k in range(rng.pick([13, 16, 24])):
+                    forms[0]['required'].append({'name': f'z_{k}', 'type': 'float', '_wide': i0['name']})
         # a counting input on the first form, used by sum-over-instances
         if any(f['multi'] for f in forms):
             f0 = forms[0]
@@ -154,6 +160,9 @@ class Gen(object):
             if fs['kind'] == 'inputform':
                 continue
             self.cur_form, self.cur_line = fs, l
+            if '_wide' in l:
+                l['expr'] = ['add', ['in', l.pop('_wide')], ['const', 1]]
+                continue
             l['expr'] = self._tail(l)
 
     def _ref(self, target_fs, name, inst=None):
